@@ -113,7 +113,7 @@ inductive W where
   deriving Repr, DecidableEq
 
 /-- state of a pipeline -/
-def St : W → Type
+@[reducible] def St : W → Type
   | .leaf _ => StatsVec
   | .fos _ w => St w
   | .rep _ w => List Ev × St w
